@@ -170,6 +170,12 @@ def gen_cases(rng, tier):
         a_, b_ = [((290, 10), (150, 150)), ((150, 150), (290, 10)), ((95, 205), (150, 150)), ((120, 180), (60, 240))][j % 4]
         cases.append(_case(rng, a_[0], a_[1], "dynamic", [None, "by_label"][j % 2], ep=rng.choice([0, 5]), en=rng.choice([0, 3]),
                            warm_other=list(b_)))
+    # H5. proportion sampling called again and again with nothing else touching the generator in between (as the loop of
+    # bootstrap_metric does): every score is reached (a fixed score is missed by all 120 samples with probability 2^-120)
+    # and the samples are not all the same
+    for j in range({"quick": 3, "thorough": 10, "search": 5}[tier]):
+        cases.append(_case(rng, rng.randint(4, 10), rng.randint(4, 12), "proportion", [None, "by_label"][j % 2], ratio=Fraction(1, 2),
+                           distinct=True, repeat=120))
     # I. call histories: the object has produced samples under other configurations before the observed call
     def other_cfg(big):
         return {"method": rng.choice(["dynamic", "replacement"] + (["single_pass"] if big else [])),
@@ -289,6 +295,18 @@ def run_impl(case):
     neg = np.array([fl(x) for x in case["neg"]], dtype=float)
     s = Scores(pos, neg, nb_easy_pos=case["ep"], nb_easy_neg=case["en"], score_class=case["sc"], equal_class=case["ec"])
     cfg = _config(case)
+    if case.get("repeat"):
+        np.random.seed(case["seed"] % 2**32)
+        cp, cn, seen = {float(v): 0 for v in pos}, {float(v): 0 for v in neg}, set()
+        for j in range(case["repeat"]):
+            b = s.bootstrap_sample(cfg)
+            for v in b.pos:
+                cp[float(v)] = cp.get(float(v), 0) + 1
+            for v in b.neg:
+                cn[float(v)] = cn.get(float(v), 0) + 1
+            seen.add((tuple(float(v) for v in b.pos), tuple(float(v) for v in b.neg)))
+        return {"repeat": case["repeat"], "never_pos": [v for v, c_ in cp.items() if c_ == 0], "never_neg": [v for v, c_ in cn.items() if c_ == 0],
+                "distinct": len(seen)}
     if case.get("stat"):
         k = case["stat"]
         tot_p = tot_n = tot_ep = tot_en = 0
@@ -373,7 +391,7 @@ def config_term(case):
 
 
 def coq_term(case, res):
-    if case.get("stat"):
+    if case.get("stat") or case.get("repeat"):
         return None
     if "ok" not in res:
         return "false"
@@ -482,6 +500,15 @@ def oracle(case, res):
     if "ok" not in res:
         return [("C11/exception", f"bootstrap_sample raised {res.get('err')}: {res.get('msg')}")]
     r = res["ok"]
+    if case.get("repeat"):
+        fails = []
+        if r["never_pos"] or r["never_neg"]:
+            fails.append(("C11/reachable/consecutive-calls", f"proportion sampling (ratio 1/2) called {r['repeat']} times in a row after one "
+                          f"np.random.seed({case['seed'] % 2**32}): the scores {r['never_pos'][:4]} (pos) / {r['never_neg'][:4]} (neg) are never "
+                          f"drawn; {r['distinct']} distinct samples"))
+        elif r["distinct"] < 2:
+            fails.append(("C11/reachable/consecutive-calls", f"{r['repeat']} consecutive proportion samples are all the same sample"))
+        return fails
     if case.get("stat"):
         return _stat_oracle(case, r)
     m = resolved_method(case)
@@ -575,7 +602,7 @@ def nontrivial(case, res):
     if "ok" not in res:
         return False
     r = res["ok"]
-    if case.get("stat"):
+    if case.get("stat") or case.get("repeat"):
         return True
     if any(b.startswith("corr-") for b in branches(case, res)):
         return True
